@@ -8,17 +8,17 @@ Local Open Scope Z_scope.
 Section Simd.
 Variables (k : nat) (p om : Z).
 Hypothesis Hk : (3 <= k <= 30)%nat.
-Let W := flat p k om.
+Variables padW padW' : list Z.
+Hypothesis HpadW : Forall (fun v => 0 <= v < p) padW.
+Let W := flat p k om ++ padW.
 Let tws (lvl : nat) : list Z := nth lvl (prep p k om) [].
-Lemma Wlen' (w : Z) : (2 ^ k - 1 <= length W)%nat /\ (2 ^ k - 1 <= length (map (fun v => ((v * 2 ^ w) / p)%Z) W))%nat.
-Proof. rewrite map_length. unfold W. pose proof (flat_length p k om). lia. Qed.
 
-Theorem ntt_sse_u32_ok x0 : 1 < p -> 4 * p <= 2 ^ 32 -> length x0 = (2 ^ k)%nat -> Forall (fun v => 0 <= v < 2 ^ 32) x0 ->
-  gen_ntt_sse_u32 (Z.of_nat (2 ^ k)) x0 0 W 0 (map (fun v => (v * 2 ^ 32) / p) W) 0 p =
+Theorem ntt_sse_u32_ok x0 : 1 < p -> 4 * p <= 2 ^ 32 -> Forall (fun v => 0 <= v < 2 ^ 32) padW' -> length x0 = (2 ^ k)%nat -> Forall (fun v => 0 <= v < 2 ^ 32) x0 ->
+  gen_ntt_sse_u32 (Z.of_nat (2 ^ k)) x0 0 W 0 (Wp k p om padW' 32) 0 p =
   Some ((ntt_core 32 p k tws x0, Z.of_nat (2 ^ k), Z.of_nat (off k (k - 2)), Z.of_nat (off k (k - 2))), true).
 Proof.
-  intros Hp H4 Hx Fx. rewrite ntt_sse_u32_shape, run_sse_u32_shape. destruct (Wlen' 32) as [L1 L2].
-  pose proof (flat_range p k Hp om) as FW. pose proof (shoup_range 32 p W ltac:(lia) ltac:(lia) FW) as FW'.
+  intros Hp H4 Hpad' Hx Fx. rewrite ntt_sse_u32_shape, run_sse_u32_shape. destruct (Wlen k p om ltac:(lia) padW padW' 32) as [L1 L2].
+  pose proof (WF k p om padW HpadW Hp) as FW. pose proof (WpF k p om ltac:(lia) padW' 32 ltac:(lia) Hp Hpad') as FW'.
   assert (K1 : forall a b wi wt, 0 <= a < 2 ^ 32 -> 0 <= b < 2 ^ 32 -> 0 <= wi < 2 ^ 32 -> 0 <= wt < p -> gen_bfly_u32 p a b wi wt = Some (bf4 32 p a b wi wt))
     by (intros a b wi wt Ha Hb Hwi Hwt; apply gen_bfly32; lia).
   assert (K2 : forall u0 u1 u2 u3 w1' w1, 0 <= u0 < 2 ^ 32 -> 0 <= u1 < 2 ^ 32 -> 0 <= u2 < 2 ^ 32 -> 0 <= u3 < 2 ^ 32 -> 0 <= w1' < 2 ^ 32 -> 0 <= w1 < p ->
@@ -26,15 +26,15 @@ Proof.
   assert (K3 : forall v, 0 <= v < 2 ^ 32 -> gen_loop_u32_region1 p v = Some (LoopInst.strict1 p v)) by (intros v Hv; apply strict_region32; lia).
   rewrite (ntt_simd_inst 32 ltac:(lia) p k ltac:(lia) W _ FW FW' L1 L2 gen_bfly_u32 K1 gen_deg2_u32 gen_fused_u32 K2 gen_loop_u32_region1 K3
              (row_v 32 4 4 gen_sse_ntt_loop_body_u32) x0 ltac:(lia)); try assumption.
-  - unfold W, tws. rewrite (result_is_ntt_core 32 p k om x0) by lia. reflexivity.
+  - unfold W, tws. unfold Wp, W. rewrite (result_is_ntt_core 32 p k om padW padW' x0) by lia. reflexivity.
   - intros lvl Hl. apply (rowok_v 32 ltac:(lia) p k ltac:(lia) W _ FW FW' L1 L2 32 4 gen_sse_ntt_loop_body_u32 2 lvl); [reflexivity | apply kern_sse32; lia | lia].
 Qed.
-Theorem ntt_avx2_u32_ok x0 : 1 < p -> 4 * p <= 2 ^ 32 -> length x0 = (2 ^ k)%nat -> Forall (fun v => 0 <= v < 2 ^ 32) x0 ->
-  gen_ntt_avx2_u32 (Z.of_nat (2 ^ k)) x0 0 W 0 (map (fun v => (v * 2 ^ 32) / p) W) 0 p =
+Theorem ntt_avx2_u32_ok x0 : 1 < p -> 4 * p <= 2 ^ 32 -> Forall (fun v => 0 <= v < 2 ^ 32) padW' -> length x0 = (2 ^ k)%nat -> Forall (fun v => 0 <= v < 2 ^ 32) x0 ->
+  gen_ntt_avx2_u32 (Z.of_nat (2 ^ k)) x0 0 W 0 (Wp k p om padW' 32) 0 p =
   Some ((ntt_core 32 p k tws x0, Z.of_nat (2 ^ k), Z.of_nat (off k (k - 2)), Z.of_nat (off k (k - 2))), true).
 Proof.
-  intros Hp H4 Hx Fx. rewrite ntt_avx2_u32_shape, run_avx2_u32_shape. destruct (Wlen' 32) as [L1 L2].
-  pose proof (flat_range p k Hp om) as FW. pose proof (shoup_range 32 p W ltac:(lia) ltac:(lia) FW) as FW'.
+  intros Hp H4 Hpad' Hx Fx. rewrite ntt_avx2_u32_shape, run_avx2_u32_shape. destruct (Wlen k p om ltac:(lia) padW padW' 32) as [L1 L2].
+  pose proof (WF k p om padW HpadW Hp) as FW. pose proof (WpF k p om ltac:(lia) padW' 32 ltac:(lia) Hp Hpad') as FW'.
   assert (K1 : forall a b wi wt, 0 <= a < 2 ^ 32 -> 0 <= b < 2 ^ 32 -> 0 <= wi < 2 ^ 32 -> 0 <= wt < p -> gen_bfly_u32 p a b wi wt = Some (bf4 32 p a b wi wt))
     by (intros a b wi wt Ha Hb Hwi Hwt; apply gen_bfly32; lia).
   assert (K2 : forall u0 u1 u2 u3 w1' w1, 0 <= u0 < 2 ^ 32 -> 0 <= u1 < 2 ^ 32 -> 0 <= u2 < 2 ^ 32 -> 0 <= u3 < 2 ^ 32 -> 0 <= w1' < 2 ^ 32 -> 0 <= w1 < p ->
@@ -42,16 +42,16 @@ Proof.
   assert (K3 : forall v, 0 <= v < 2 ^ 32 -> gen_loop_u32_region1 p v = Some (LoopInst.strict1 p v)) by (intros v Hv; apply strict_region32; lia).
   rewrite (ntt_simd_inst 32 ltac:(lia) p k ltac:(lia) W _ FW FW' L1 L2 gen_bfly_u32 K1 gen_deg2_u32 gen_fused_u32 K2 gen_loop_u32_region1 K3
              (row_avx2 32 8 gen_avx2_ntt_loop_body_u32 gen_sse_ntt_loop_body_u32) x0 ltac:(lia)); try assumption.
-  - unfold W, tws. rewrite (result_is_ntt_core 32 p k om x0) by lia. reflexivity.
+  - unfold W, tws. unfold Wp, W. rewrite (result_is_ntt_core 32 p k om padW padW' x0) by lia. reflexivity.
   - intros lvl Hl. apply (rowok_avx2 32 ltac:(lia) p k ltac:(lia) W _ FW FW' L1 L2 32 gen_avx2_ntt_loop_body_u32 gen_sse_ntt_loop_body_u32 2 lvl); [reflexivity | reflexivity | apply kern_avx2_32; lia | apply kern_sse32; lia | lia].
 Qed.
-Theorem ntt_sse_u16_ok x0 : 1 < p -> p < 2 ^ 14 -> length x0 = (2 ^ k)%nat -> Forall (fun v => 0 <= v < 2 ^ 16) x0 ->
-  gen_ntt_sse_u16 (Z.of_nat (2 ^ k)) x0 0 W 0 (map (fun v => (v * 2 ^ 16) / p) W) 0 p =
+Theorem ntt_sse_u16_ok x0 : 1 < p -> p < 2 ^ 14 -> Forall (fun v => 0 <= v < 2 ^ 16) padW' -> length x0 = (2 ^ k)%nat -> Forall (fun v => 0 <= v < 2 ^ 16) x0 ->
+  gen_ntt_sse_u16 (Z.of_nat (2 ^ k)) x0 0 W 0 (Wp k p om padW' 16) 0 p =
   Some ((ntt_core 16 p k tws x0, Z.of_nat (2 ^ k), Z.of_nat (off k (k - 2)), Z.of_nat (off k (k - 2))), true).
 Proof.
-  intros Hp P14 Hx Fx. rewrite ntt_sse_u16_shape, run_sse_u16_shape. destruct (Wlen' 16) as [L1 L2].
+  intros Hp P14 Hpad' Hx Fx. rewrite ntt_sse_u16_shape, run_sse_u16_shape. destruct (Wlen k p om ltac:(lia) padW padW' 16) as [L1 L2].
   assert (H4 : 4 * p <= 2 ^ 16) by (change (2 ^ 16) with 65536; change (2 ^ 14) with 16384 in P14; lia).
-  pose proof (flat_range p k Hp om) as FW. pose proof (shoup_range 16 p W ltac:(lia) ltac:(lia) FW) as FW'.
+  pose proof (WF k p om padW HpadW Hp) as FW. pose proof (WpF k p om ltac:(lia) padW' 16 ltac:(lia) Hp Hpad') as FW'.
   assert (K1 : forall a b wi wt, 0 <= a < 2 ^ 16 -> 0 <= b < 2 ^ 16 -> 0 <= wi < 2 ^ 16 -> 0 <= wt < p -> gen_bfly_u16 p a b wi wt = Some (bf4 16 p a b wi wt))
     by (intros a b wi wt Ha Hb Hwi Hwt; apply gen_bfly16; lia).
   assert (K2 : forall u0 u1 u2 u3 w1' w1, 0 <= u0 < 2 ^ 16 -> 0 <= u1 < 2 ^ 16 -> 0 <= u2 < 2 ^ 16 -> 0 <= u3 < 2 ^ 16 -> 0 <= w1' < 2 ^ 16 -> 0 <= w1 < p ->
@@ -59,16 +59,16 @@ Proof.
   assert (K3 : forall v, 0 <= v < 2 ^ 16 -> gen_loop_u16_region1 p v = Some (LoopInst.strict1 p v)) by (intros v Hv; apply strict_region16; lia).
   rewrite (ntt_simd_inst 16 ltac:(lia) p k ltac:(lia) W _ FW FW' L1 L2 gen_bfly_u16 K1 gen_deg2_u16 gen_fused_u16 K2 gen_loop_u16_region1 K3
              (row_v 16 4 8 gen_sse_ntt_loop_body_u16) x0 ltac:(lia)); try assumption.
-  - unfold W, tws. rewrite (result_is_ntt_core 16 p k om x0) by lia. reflexivity.
+  - unfold W, tws. unfold Wp, W. rewrite (result_is_ntt_core 16 p k om padW padW' x0) by lia. reflexivity.
   - intros lvl Hl. apply (rowok_v 16 ltac:(lia) p k ltac:(lia) W _ FW FW' L1 L2 16 4 gen_sse_ntt_loop_body_u16 3 lvl); [reflexivity | apply kern_sse16; lia | lia].
 Qed.
-Theorem ntt_avx2_u16_ok x0 : 1 < p -> p < 2 ^ 14 -> length x0 = (2 ^ k)%nat -> Forall (fun v => 0 <= v < 2 ^ 16) x0 ->
-  gen_ntt_avx2_u16 (Z.of_nat (2 ^ k)) x0 0 W 0 (map (fun v => (v * 2 ^ 16) / p) W) 0 p =
+Theorem ntt_avx2_u16_ok x0 : 1 < p -> p < 2 ^ 14 -> Forall (fun v => 0 <= v < 2 ^ 16) padW' -> length x0 = (2 ^ k)%nat -> Forall (fun v => 0 <= v < 2 ^ 16) x0 ->
+  gen_ntt_avx2_u16 (Z.of_nat (2 ^ k)) x0 0 W 0 (Wp k p om padW' 16) 0 p =
   Some ((ntt_core 16 p k tws x0, Z.of_nat (2 ^ k), Z.of_nat (off k (k - 2)), Z.of_nat (off k (k - 2))), true).
 Proof.
-  intros Hp P14 Hx Fx. rewrite ntt_avx2_u16_shape, run_avx2_u16_shape. destruct (Wlen' 16) as [L1 L2].
+  intros Hp P14 Hpad' Hx Fx. rewrite ntt_avx2_u16_shape, run_avx2_u16_shape. destruct (Wlen k p om ltac:(lia) padW padW' 16) as [L1 L2].
   assert (H4 : 4 * p <= 2 ^ 16) by (change (2 ^ 16) with 65536; change (2 ^ 14) with 16384 in P14; lia).
-  pose proof (flat_range p k Hp om) as FW. pose proof (shoup_range 16 p W ltac:(lia) ltac:(lia) FW) as FW'.
+  pose proof (WF k p om padW HpadW Hp) as FW. pose proof (WpF k p om ltac:(lia) padW' 16 ltac:(lia) Hp Hpad') as FW'.
   assert (K1 : forall a b wi wt, 0 <= a < 2 ^ 16 -> 0 <= b < 2 ^ 16 -> 0 <= wi < 2 ^ 16 -> 0 <= wt < p -> gen_bfly_u16 p a b wi wt = Some (bf4 16 p a b wi wt))
     by (intros a b wi wt Ha Hb Hwi Hwt; apply gen_bfly16; lia).
   assert (K2 : forall u0 u1 u2 u3 w1' w1, 0 <= u0 < 2 ^ 16 -> 0 <= u1 < 2 ^ 16 -> 0 <= u2 < 2 ^ 16 -> 0 <= u3 < 2 ^ 16 -> 0 <= w1' < 2 ^ 16 -> 0 <= w1 < p ->
@@ -76,37 +76,39 @@ Proof.
   assert (K3 : forall v, 0 <= v < 2 ^ 16 -> gen_loop_u16_region1 p v = Some (LoopInst.strict1 p v)) by (intros v Hv; apply strict_region16; lia).
   rewrite (ntt_simd_inst 16 ltac:(lia) p k ltac:(lia) W _ FW FW' L1 L2 gen_bfly_u16 K1 gen_deg2_u16 gen_fused_u16 K2 gen_loop_u16_region1 K3
              (row_avx2 16 16 gen_avx2_ntt_loop_body_u16 gen_sse_ntt_loop_body_u16) x0 ltac:(lia)); try assumption.
-  - unfold W, tws. rewrite (result_is_ntt_core 16 p k om x0) by lia. reflexivity.
+  - unfold W, tws. unfold Wp, W. rewrite (result_is_ntt_core 16 p k om padW padW' x0) by lia. reflexivity.
   - intros lvl Hl. apply (rowok_avx2 16 ltac:(lia) p k ltac:(lia) W _ FW FW' L1 L2 16 gen_avx2_ntt_loop_body_u16 gen_sse_ntt_loop_body_u16 3 lvl); [reflexivity | reflexivity | apply kern_avx2_16; lia | apply kern_sse16; lia | lia].
 Qed.
 End Simd.
 
 (* all builds, all limb types: one statement.  (For 64-bit limbs the SSE and AVX2 builds run the serial loops: ntt_loop<simd::sse, poly, T>
-   is ntt_loop<simd::serial, poly, T> unless T is uint16_t or uint32_t -- the translator found that call, the shapes record it.) *)
-Theorem source_loops_all_builds k p om x0 : (3 <= k <= 30)%nat -> 1 < p -> length x0 = (2 ^ k)%nat ->
-  let W := flat p k om in let tws := fun lvl => nth lvl (prep p k om) nil in
+   is ntt_loop<simd::serial, poly, T> unless T is uint16_t or uint32_t -- the translator found that call, the shapes record it.)
+   The table arrays may be longer than the tables (the library's have 2*degree cells): padW / padW' is what follows. *)
+Theorem source_loops_all_builds k p om padW padW' x0 : (3 <= k <= 30)%nat -> 1 < p -> Forall (fun v => 0 <= v < p) padW -> length x0 = (2 ^ k)%nat ->
+  let W := flat p k om ++ padW in let W' := fun w => map (fun v => (v * 2 ^ w) / p) (flat p k om) ++ padW' in let tws := fun lvl => nth lvl (prep p k om) nil in
   let out w := Some ((ntt_core w p k tws x0, Z.of_nat (2 ^ k), Z.of_nat (off k (k - 2)), Z.of_nat (off k (k - 2))), true) in
-  (p < 2 ^ 14 -> Forall (fun v => 0 <= v < 2 ^ 16) x0 ->
-     gen_ntt_serial_u16 (Z.of_nat (2 ^ k)) x0 0 W 0 (map (fun v => (v * 2 ^ 16) / p) W) 0 p = out 16 /\
-     gen_ntt_sse_u16 (Z.of_nat (2 ^ k)) x0 0 W 0 (map (fun v => (v * 2 ^ 16) / p) W) 0 p = out 16 /\
-     gen_ntt_avx2_u16 (Z.of_nat (2 ^ k)) x0 0 W 0 (map (fun v => (v * 2 ^ 16) / p) W) 0 p = out 16) /\
-  (4 * p <= 2 ^ 32 -> Forall (fun v => 0 <= v < 2 ^ 32) x0 ->
-     gen_ntt_serial_u32 (Z.of_nat (2 ^ k)) x0 0 W 0 (map (fun v => (v * 2 ^ 32) / p) W) 0 p = out 32 /\
-     gen_ntt_sse_u32 (Z.of_nat (2 ^ k)) x0 0 W 0 (map (fun v => (v * 2 ^ 32) / p) W) 0 p = out 32 /\
-     gen_ntt_avx2_u32 (Z.of_nat (2 ^ k)) x0 0 W 0 (map (fun v => (v * 2 ^ 32) / p) W) 0 p = out 32) /\
-  (4 * p <= 2 ^ 64 -> Forall (fun v => 0 <= v < 2 ^ 64) x0 ->
-     gen_ntt_serial_u64 (Z.of_nat (2 ^ k)) x0 0 W 0 (map (fun v => (v * 2 ^ 64) / p) W) 0 p = out 64 /\
-     gen_ntt_sse_u64 (Z.of_nat (2 ^ k)) x0 0 W 0 (map (fun v => (v * 2 ^ 64) / p) W) 0 p = out 64 /\
-     gen_ntt_avx2_u64 (Z.of_nat (2 ^ k)) x0 0 W 0 (map (fun v => (v * 2 ^ 64) / p) W) 0 p = out 64).
+  (p < 2 ^ 14 -> Forall (fun v => 0 <= v < 2 ^ 16) padW' -> Forall (fun v => 0 <= v < 2 ^ 16) x0 ->
+     gen_ntt_serial_u16 (Z.of_nat (2 ^ k)) x0 0 W 0 (W' 16) 0 p = out 16 /\
+     gen_ntt_sse_u16 (Z.of_nat (2 ^ k)) x0 0 W 0 (W' 16) 0 p = out 16 /\
+     gen_ntt_avx2_u16 (Z.of_nat (2 ^ k)) x0 0 W 0 (W' 16) 0 p = out 16) /\
+  (4 * p <= 2 ^ 32 -> Forall (fun v => 0 <= v < 2 ^ 32) padW' -> Forall (fun v => 0 <= v < 2 ^ 32) x0 ->
+     gen_ntt_serial_u32 (Z.of_nat (2 ^ k)) x0 0 W 0 (W' 32) 0 p = out 32 /\
+     gen_ntt_sse_u32 (Z.of_nat (2 ^ k)) x0 0 W 0 (W' 32) 0 p = out 32 /\
+     gen_ntt_avx2_u32 (Z.of_nat (2 ^ k)) x0 0 W 0 (W' 32) 0 p = out 32) /\
+  (4 * p <= 2 ^ 64 -> Forall (fun v => 0 <= v < 2 ^ 64) padW' -> Forall (fun v => 0 <= v < 2 ^ 64) x0 ->
+     gen_ntt_serial_u64 (Z.of_nat (2 ^ k)) x0 0 W 0 (W' 64) 0 p = out 64 /\
+     gen_ntt_sse_u64 (Z.of_nat (2 ^ k)) x0 0 W 0 (W' 64) 0 p = out 64 /\
+     gen_ntt_avx2_u64 (Z.of_nat (2 ^ k)) x0 0 W 0 (W' 64) 0 p = out 64).
 Proof.
-  intros Hk Hp Hx W tws out. split; [|split]; intros H1 Fx; (split; [|split]).
-  - apply ntt_serial_u16_ok; (assumption || lia).
-  - apply ntt_sse_u16_ok; (assumption || lia).
-  - apply ntt_avx2_u16_ok; (assumption || lia).
-  - apply ntt_serial_u32_ok; (assumption || lia).
-  - apply ntt_sse_u32_ok; (assumption || lia).
-  - apply ntt_avx2_u32_ok; (assumption || lia).
-  - apply ntt_serial_u64_ok; (assumption || lia).
-  - rewrite ntt_sse_u64_shape, <- ntt_serial_u64_shape. apply ntt_serial_u64_ok; (assumption || lia).
-  - rewrite ntt_avx2_u64_shape, <- ntt_serial_u64_shape. apply ntt_serial_u64_ok; (assumption || lia).
+  intros Hk Hp HpadW Hx W W' tws out. assert (Hk2 : (2 <= k <= 30)%nat) by lia.
+  split; [|split]; intros H1 Hpad' Fx; (split; [|split]).
+  - apply (ntt_serial_u16_ok k p om Hk2 padW padW' HpadW); assumption.
+  - apply (ntt_sse_u16_ok k p om Hk padW padW' HpadW); assumption.
+  - apply (ntt_avx2_u16_ok k p om Hk padW padW' HpadW); assumption.
+  - apply (ntt_serial_u32_ok k p om Hk2 padW padW' HpadW); assumption.
+  - apply (ntt_sse_u32_ok k p om Hk padW padW' HpadW); assumption.
+  - apply (ntt_avx2_u32_ok k p om Hk padW padW' HpadW); assumption.
+  - apply (ntt_serial_u64_ok k p om Hk2 padW padW' HpadW); assumption.
+  - rewrite ntt_sse_u64_shape, <- ntt_serial_u64_shape. apply (ntt_serial_u64_ok k p om Hk2 padW padW' HpadW); assumption.
+  - rewrite ntt_avx2_u64_shape, <- ntt_serial_u64_shape. apply (ntt_serial_u64_ok k p om Hk2 padW padW' HpadW); assumption.
 Qed.
